@@ -211,3 +211,41 @@ impl ReceiveStreamR {
         Ok(())
     }
 }
+
+// ---- ReceiveStream::poll_request (the application's read call): the end-of-stream statement ------------------------------
+// C01 "when the receiver observes a clean end of stream it has read exactly the whole byte sequence the sender wrote": the
+// status handed back to the application is `Finished` (and the stream moves to DataRead, the buffer is dropped) only if the
+// final size was known when the call started reading AND the application has now consumed every byte up to it; `Finishing`
+// ("no more data will arrive") only if everything up to the final size has been received.
+#[derive(Clone, Copy, PartialEq, Eq, Structural)]
+pub enum OpsStatus { Open, Finishing, Finished, Resetting, Reset(u64) }
+pub mod ops { pub use super::OpsStatus as Status; }
+pub struct RxResponseX { pub status: OpsStatus }
+pub struct WaiterX { pub dummy: u8 }
+pub struct PollStream {
+    pub state: ReceiveStreamState,
+    pub receive_buffer: ReceiveBufferX,
+    pub read_waiter: Option<WaiterX>,
+    pub final_state_observed: bool,
+}
+impl PollStream {
+    fn poll_request_end_of_stream(&mut self, total_size: Option<u64>, response: &mut RxResponseX)
+        requires
+            old(self).receive_buffer.inv(), old(self).state == ReceiveStreamState::Receiving,
+            old(response).status == OpsStatus::Open,
+            // `total_size` is what `self.receive_buffer.final_size()` returned a few statements earlier in the same call
+            total_size is Some ==> old(self).receive_buffer.fin@ is Some && total_size->Some_0 as int == old(self).receive_buffer.fin@->Some_0,
+        ensures
+            // clean end reported / DataRead entered  <=>  final size known and fully consumed
+            final(response).status == OpsStatus::Finished <==> total_size is Some && old(self).receive_buffer.start@ == total_size->Some_0 as int,
+            final(self).state == ReceiveStreamState::DataRead <==> final(response).status == OpsStatus::Finished,
+            final(self).state != ReceiveStreamState::DataRead ==> final(self).state == old(self).state,
+            final(self).receive_buffer.was_reset@ && !old(self).receive_buffer.was_reset@ ==> final(response).status == OpsStatus::Finished,
+            // "will not grow" only once everything up to the final size was received
+            final(response).status == OpsStatus::Finishing ==> total_size is Some && old(self).receive_buffer.received@ == total_size->Some_0 as int
+                && old(self).receive_buffer.start@ < total_size->Some_0 as int,
+            final(response).status == OpsStatus::Open || final(response).status == OpsStatus::Finishing || final(response).status == OpsStatus::Finished,
+    {
+//@ splice-stmts quic/s2n-quic-transport/src/stream/receive_stream.rs "ReceiveStream" poll_request "from=if let Some(total_size) = total_size" dropstmt=debug_assert!
+    }
+}
